@@ -10,10 +10,14 @@
     kind, its length limits, position independence — obtained by executing it (TestVerifC08NameTable).  They must be
     exactly the model's `isAlnumU` / `restC` / `Part.maxLen`, which is what `nameToPath_safe` (⇒ `link_confined`:
     a name never denotes a file outside manifests/<h>/<n>/<m>/<t>) is proved from.
+  * `Generated/C08_ReadLimit.lean` (round 7): the limits `Resolve` and `Link` pass to `readAndSum` (constant
+    expressions extracted from the two call sites), whether `readAndSum` refuses a longer file
+    (proposed_fixes/C08-F28.patch) and whether `copyNamedFile` refuses a negative size (C08-F29.patch).
 -/
-import OllamaVerif.Properties.C08
+import OllamaVerif.Properties.C08Hist
 import OllamaVerif.Generated.C08_LinkVariant
 import OllamaVerif.Generated.C08_NameChars
+import OllamaVerif.Generated.C08_ReadLimit
 namespace OllamaVerif.Tie.C08
 open OllamaVerif OllamaVerif.BlobCache OllamaVerif.Generated.C08
 
@@ -70,5 +74,35 @@ theorem name_accepted_bytes_safe :
     (firstChars ++ restChars).all (fun e => e.2.all fun b => b != 47) = true ∧
     firstChars.all (fun e => e.2.all fun b => b != 46) = true := by
   constructor <;> decide +kernel
+
+/-! ## the read limit (round 7) -/
+
+/-- `Resolve` and `Link` read a manifest under the same limit, and it was extracted (not 0): what Link's
+    already-linked test sees is what Resolve would answer -/
+theorem read_limits_agree : resolveReadLimit = linkReadLimit ∧ 0 < resolveReadLimit := by decide
+
+theorem manGet_mem (mans : List (MPath × Bytes)) (p : MPath) (file : Bytes) (h : manGet mans p = some file) :
+    ∃ e ∈ mans, e.2 = file := by
+  unfold manGet at h
+  cases hf : mans.find? (fun e => e.1 == p) with
+  | none => simp [hf] at h
+  | some e =>
+    simp only [hf, Option.map_some, Option.some.injEq] at h
+    exact ⟨e, List.mem_of_find?_eq_some hf, h⟩
+
+/-- **Link then Resolve for the tree's `Link` AND the tree's `Resolve`** (with its read limit, at the variant and the
+    constant found in the source): holds whenever the manifests on the disk after the `Link` are within the limit. -/
+theorem tree_link_then_resolve_limited (hash : Bytes → Digest) (k : Disk) (name : Bytes) (d : Digest)
+    (f : Bytes) (want : MPath)
+    (hat : splitNameDigest name = (name, []))
+    (hp : nameToPath name = some want)
+    (hb : k.blob d = some f) (hh : hash f = d)
+    (hsmall : ∀ e ∈ (linkZ hash linkZeroCheck linkFixed k name d).1.mans, e.2.length ≤ resolveReadLimit) :
+    (resolveL hash readStrict resolveReadLimit (linkZ hash linkZeroCheck linkFixed k name d).1 name).2 = .digest d := by
+  rw [OllamaVerif.C08.resolveL_eq_resolve]
+  · exact (tree_link_then_resolve hash k name d f want hat hp hb hh).2
+  · intro w file _ hm
+    obtain ⟨e, he, rfl⟩ := manGet_mem _ _ _ hm
+    exact hsmall e he
 
 end OllamaVerif.Tie.C08
